@@ -10,7 +10,9 @@ from . import paths
 SCHEMA = "/root/.vp/EVIDENCE.schema.json"
 
 
-def write(prop_id: str, ev: dict) -> None:
+def write(prop_id: str, ev: dict) -> bool:
+    """returns False when the file written does not validate against the schema (the caller decides what that means: a
+    run that found a violation still reports it - exit 1 - and only a run that would otherwise pass becomes exit 2)"""
     d = paths.VERIF / "evidence"
     if str(paths.repo()) != "/repo":
         # mutant self-test against a scratch copy: never overwrite the evidence of the real tree
@@ -20,16 +22,17 @@ def write(prop_id: str, ev: dict) -> None:
     tmp = d / f".{prop_id}.json.tmp"
     tmp.write_text(json.dumps(ev, indent=1, default=str) + "\n")
     os.replace(tmp, p)
-    validate(p)
+    return validate(p)
 
 
-def validate(p) -> None:
+def validate(p) -> bool:
     vt = shutil.which("python3-vt")
     if not vt or not os.path.exists(SCHEMA):
-        return
+        return True
     code = ("import json,sys,jsonschema;"
             "jsonschema.validate(json.load(open(sys.argv[1])), json.load(open(sys.argv[2])))")
     r = subprocess.run([vt, "-c", code, str(p), SCHEMA], capture_output=True, text=True)
     if r.returncode != 0:
         sys.stderr.write("evidence file does not validate:\n" + r.stderr[-1500:] + "\n")
-        sys.exit(2)
+        return False
+    return True
